@@ -33,6 +33,14 @@ fn queries(u: &[Vec<u8>]) -> Vec<Vec<u8>> {
     for extra in [&b"abx"[..], b"b", b"aqq", b"q", b"\xff", b"memse", b"memsets", b"\0"] {
         q.push(extra.to_vec());
     }
+    // queries with an embedded NUL are never present (names are NUL-terminated)
+    for n in u.iter().take(4) {
+        let mut a = n.clone();
+        a.push(0);
+        q.push(a.clone());
+        a.extend_from_slice(b"junk");
+        q.push(a);
+    }
     q
 }
 
